@@ -29,6 +29,8 @@ struct IStack {
     virtual std::unique_ptr<IStack> rebuild() const = 0;
     // field(make_parameter_pack(own configuration, copy of the backend's complete owning data))
     virtual std::unique_ptr<IStack> rebuild_from_backend() const = 0;
+    // owning_data_t(configuration, backend owning data &&) wrapped in a parameter pack of complete owning data
+    virtual std::unique_ptr<IStack> rebuild_cfg_backend() const = 0;
 };
 
 struct Factory {
